@@ -20,6 +20,7 @@ def ppE (ps imp : List String) : X.Expr → Bool
   | .un _ e => ppE ps imp e
   | .bin _ l r => ppE ps imp l && ppE ps imp r
   | .call g args => ps.contains g && !imp.contains g && args.all pureE
+  | .sub _ i => pureE i
   | _ => false
 
 theorem pure_pp (ps imp : List String) : (e : X.Expr) → pureE e = true → ppE ps imp e = true
@@ -32,7 +33,7 @@ theorem pure_pp (ps imp : List String) : (e : X.Expr) → pureE e = true → ppE
     simp only [ppE, Bool.and_eq_true]
     exact ⟨pure_pp ps imp l h.1, pure_pp ps imp r h.2⟩
   | .str _, h => by simp [pureE] at h
-  | .sub _ _, h => by simp [pureE] at h
+  | .sub _ i, h => by simp only [pureE] at h; simp only [ppE]; exact h
   | .call _ _, h => by simp [pureE] at h
   | .syscall _ _, h => by simp [pureE] at h
 
@@ -60,7 +61,7 @@ theorem annot_const_pure (ρ : String → Option Word) (ps imp : List String) :
         simp only [pureE, Bool.and_eq_true]
         exact ⟨annot_const_pure ρ ps imp l cl hp.1 hl, annot_const_pure ρ ps imp r cr hp.2 hr⟩
   | .str _, _, hp, _ => by simp [ppE] at hp
-  | .sub _ _, _, hp, _ => by simp [ppE] at hp
+  | .sub _ _, _, _, hc => by simp [annotate] at hc
   | .call _ _, _, _, hc => by simp [annotate] at hc
   | .syscall _ _, _, hp, _ => by simp [ppE] at hp
 
@@ -86,7 +87,9 @@ theorem Rep.sim {K : PCtx} {σ σ' : X.St} {mem : Mem} (h : Rep K σ mem) (hs : 
   ⟨h.sp, fun n w hn => by have := h.vals n w hn; unfold ValBound at this ⊢; rw [← hs.2.2.1]; exact this,
    fun n w hn hr => h.vars n w hn (by rw [readName_sim K.xc n σ σ' hs]; exact hr), h.consts,
    fun n hv => h.locs n (by unfold IsVar at hv ⊢; rw [hs.2.2.1]; exact hv), h.above,
-   fun n hn => by rw [← hs.2.2.1]; exact h.gvis n hn, by rw [← hs.2.2.2.2]; exact h.depth⟩
+   fun n hn => by rw [← hs.2.2.1]; exact h.gvis n hn, by rw [← hs.2.2.2.2]; exact h.depth,
+   fun n r hr => h.aptr n r (by rw [readName_sim K.xc n σ σ' hs]; exact hr),
+   fun id cells hc => h.acells id cells (by rw [hs.2.1]; exact hc)⟩
 
 theorem ExecAt.sim {t : Bool} {K : PCtx} {e' : AExpr} {v : Word} {σ σ' : X.St} (h : ExecAt t K e' v σ) (hs : Sim σ σ') :
     ExecAt t K e' v σ' := by
@@ -122,7 +125,7 @@ theorem impE_pure (imp : String → Bool) : (e : X.Expr) → pureE e = true → 
     simp only [X.impE, Bool.or_eq_false_iff]
     exact ⟨impE_pure imp l h.1, impE_pure imp r h.2⟩
   | .str _, h => by simp [pureE] at h
-  | .sub _ _, h => by simp [pureE] at h
+  | .sub _ i, h => by simp only [pureE] at h; simp only [X.impE]; exact impE_pure imp i h
   | .call _ _, h => by simp [pureE] at h
   | .syscall _ _, h => by simp [pureE] at h
 end
@@ -149,7 +152,7 @@ theorem pp_imp (L : List String) (hL : ∀ g, ps.contains g = true → L.contain
     simp only [X.impE, Bool.or_eq_false_iff]
     exact ⟨pp_imp L hL l h.1, pp_imp L hL r h.2⟩
   | .str _, h => by simp [ppE] at h
-  | .sub _ _, h => by simp [ppE] at h
+  | .sub _ i, h => by simp only [ppE] at h; simp only [X.impE]; exact impE_pure _ i h
   | .syscall _ _, h => by simp [ppE] at h
   | .call g args, h => by
     simp only [ppE, Bool.and_eq_true, Bool.not_eq_true', List.all_eq_true] at h
@@ -222,7 +225,7 @@ theorem expr_pp_correct (K : PCtx) (wf : K.WF) (ps : List String) (pk : PureOk K
     | bool b => exact absurd rfl hp
     | name n => exact absurd rfl hp
     | str bs => simp [ppE] at hpp
-    | sub n i => simp [ppE] at hpp
+    | sub n i => simp only [ppE] at hpp; exact absurd (by simpa [pureE] using hpp) hp
     | syscall id args => simp [ppE] at hpp
     | call g args =>
       simp only [ppE, Bool.and_eq_true, Bool.not_eq_true', List.all_eq_true] at hpp
